@@ -8,7 +8,7 @@ HEAD=$(git -C /repo rev-parse HEAD)
 git -C "$WT" checkout -q -- . 2>/dev/null
 git -C "$WT" checkout -q --detach "$HEAD" || exit 2
 DIRS=("$@")
-[ ${#DIRS[@]} -eq 0 ] && DIRS=($(ls -d $WT/_seed/${PROP}_* /verif/seeded/${PROP}_* 2>/dev/null))
+[ ${#DIRS[@]} -eq 0 ] && DIRS=($(ls -d /verif/seeded/${PROP}_[0-9]* 2>/dev/null))
 for d in "${DIRS[@]}"; do
   name=$(basename "$d")
   git -C "$WT" checkout -q -- .
